@@ -122,6 +122,11 @@ ReleaseRule == (Good /\ Last.a = "Revoke") =>
                   /\ Last.relh = LastRev(Last.p).h
                   /\ Last.relh < Last.sh[Last.p].LC[1].h
 
+\* ... and the same when a revocation is retransmitted by ProcessChanSyncMsg (also on live objects)
+ReleaseRuleReest == (Good /\ Last.a = "RecvReest" /\ Last.relh >= 0 /\ Last.sherr = "") =>
+                       /\ Last.relh \in released[Last.p]
+                       /\ Last.relh < Last.sh[Last.p].LC[1].h
+
 TInit == Init /\ opener = "A" /\ l = 1 /\ ctx = [type |-> "tweakless", dust |-> [A |-> 0, B |-> 0]]
 
 Is(a) == l <= Len(Trace) /\ Trace[l].a = a /\ l' = l + 1
@@ -161,9 +166,11 @@ TStep ==
   \/ Is("SendReest") /\ SendReest(P)
   \/ Is("RecvReest") /\ RecvReest(P)
   \/ Is("Disconnect") /\ Disconnect
+  \/ Is("SoftDisconnect") /\ SoftDisconnect
   \/ Is("UpdateFee") /\ UpdateFee(P, Trace[l].x)
   \/ Is("RecvFee") /\ RecvFee(P)
   \/ AddRejected
+  \/ Is("StaleTouch") /\ UNCHANGED vars
 TNext == \/ TStep /\ UNCHANGED ctx
          \/ Reset
          \/ (l = Len(Trace) + 1 /\ UNCHANGED <<vars, l, ctx>>)
